@@ -14,7 +14,9 @@
 (*   clients{svcs,clients}             service packages, exported clients  *)
 (*   usable{bad}                       classes that cannot be instantiated *)
 (*                                     and round-tripped                   *)
-(*   call{rpc,same}                    one call per kept RPC; same = the   *)
+(*   call{rpc,underscored,same}        one call per RPC of the library     *)
+(*                                     (internal mode: the unlisted ones   *)
+(*                                     through `_name`); same = the        *)
 (*                                     observation equals the full library *)
 (* `ref` is what the clients of the FULL library of the same graph expose. *)
 (* Between `validate` and the first observation the specification performs *)
@@ -83,10 +85,10 @@ TUsable == /\ AtEvent("usable") /\ phase = "closed"
            /\ IF {"built", "files", "types", "rpcs", "clients"} \subseteq seen /\ S(Ev[l].bad) = {}
               THEN Publish /\ Advance /\ UNCHANGED <<seen, called>> ELSE Reject
 TCall == /\ AtEvent("call") /\ phase \in {"closed", "done"}
-         /\ IF phase = "done" /\ Ev[l].rpc \in KeptRpcs \ called /\ Ev[l].same
+         /\ IF phase = "done" /\ Ev[l].rpc \notin called /\ CallOK(Ev[l].rpc, Ev[l].underscored, Ev[l].same)
             THEN called' = called \cup {Ev[l].rpc} /\ UNCHANGED <<vars, seen>> /\ Advance ELSE Reject
 TNextTrace == /\ tid <= N /\ l = Len(Ev) + 1 /\ phase \notin {"reach", "up"}
-              /\ IF phase = "failed" \/ (phase = "done" /\ called = KeptRpcs \cap FullSync) THEN Accept ELSE Reject
+              /\ IF phase = "failed" \/ (phase = "done" /\ called = MustBehave \cap FullSync) THEN Accept ELSE Reject
 TNext == TValidate \/ TStep \/ TSelective \/ TBuilt \/ TFiles \/ TTypes \/ TRpcs \/ TClients \/ TUsable \/ TCall \/ TNextTrace
 TSpec == TInit /\ [][TNext]_tvars
 \* CONSTRAINT (workers 1): register 2 = how far the batch got before the first rejection (PagerTrace meaning),
